@@ -28,6 +28,7 @@ using FloatCmp::RoundingStyle;
 template<class T> struct Bits;
 template<> struct Bits<float>  { using U = std::uint32_t; static constexpr int hex = 8; };
 template<> struct Bits<double> { using U = std::uint64_t; static constexpr int hex = 16; };
+template<> struct Bits<long double> { using U = unsigned __int128; static constexpr int hex = 20; };
 
 template<class T> static T from_bits(const std::string& s)
 {
@@ -39,6 +40,21 @@ template<class T> static std::string to_bits(T v)
   typename Bits<T>::U u; std::memcpy(&u, &v, sizeof v);
   if (v != v) u = (typename Bits<T>::U)(std::is_same<T,float>::value ? 0x7fc00000ull : 0x7ff8000000000000ull); // canonical NaN
   char buf[32]; std::snprintf(buf, sizeof buf, "%0*llx", Bits<T>::hex, (unsigned long long) u); return buf;
+}
+// long double = x87 extended: 20 hex digits = 16 bit sign/exponent + 64 bit significand (explicit integer bit)
+template<> long double from_bits<long double>(const std::string& s)
+{
+  std::uint16_t se = (std::uint16_t) std::stoul(s.substr(0, 4), nullptr, 16);
+  std::uint64_t m = std::stoull(s.substr(4, 16), nullptr, 16);
+  long double v = 0; unsigned char raw[sizeof(long double)] = {0};
+  std::memcpy(raw, &m, 8); std::memcpy(raw + 8, &se, 2); std::memcpy(&v, raw, sizeof v); return v;
+}
+template<> std::string to_bits<long double>(long double v)
+{
+  unsigned char raw[sizeof(long double)]; std::memcpy(raw, &v, sizeof v);
+  std::uint64_t m; std::uint16_t se; std::memcpy(&m, raw, 8); std::memcpy(&se, raw + 8, 2);
+  if (v != v) { se = 0x7fff; m = 0xc000000000000000ull; }   // canonical NaN
+  char buf[32]; std::snprintf(buf, sizeof buf, "%04x%016llx", (unsigned) se, (unsigned long long) m); return buf;
 }
 
 static CmpStyle cstyle_of(const std::string& s)
@@ -448,8 +464,9 @@ int main(int argc, char** argv)
     else if (t[0] == "icfact" || t[0] == "icbinom") out = do_ic(t);
     else if (t[0] == "icls") out = t[1] == "i32" ? icls<std::int32_t>(t[2]) : t[1] == "u32" ? icls<std::uint32_t>(t[2]) : icls<long>(t[2]);
     else if (t[0] == "ipowx") out = t[1] == "i32" ? do_ipowx<std::int32_t>(t) : t[1] == "u32" ? do_ipowx<std::uint32_t>(t) : t[1] == "i64" ? do_ipowx<long>(t) : do_ipowx<unsigned long>(t);
-    else if (t[0] == "rto") out = t[2] == "32" ? do_rto<float>(t) : do_rto<double>(t);
+    else if (t[0] == "rto") out = t[2] == "32" ? do_rto<float>(t) : t[2] == "80" ? do_rto<long double>(t) : do_rto<double>(t);
     else if (t[1] == "32") out = do_float<float>(t);
+    else if (t[1] == "80") out = do_float<long double>(t);
     else out = do_float<double>(t);
     std::cout << out << std::endl;
   }
